@@ -284,7 +284,37 @@ def body_wide(ctx, ny, nx, nk):
               'salt: deepest layer that holds data')
 
 
+def body_values(ctx, fill):
+    """Particular values at the sea floor: whatever number is stored in the deepest layer that holds data is the answer -
+    zero, negative zero, a number equal to the fill value remembered in the encoding, numbers beyond single precision."""
+    from emsarray.operations import depth as depth_ops
+    order = int(ctx.int('deep_first', 0, 1))
+    specials = [0.0, -0.0, -999.0, 1e35, 1e39, -1e39, 1e300, 5e-324, float(2 ** 53 + 1), -32768.0, 9.969209968386869e36, 1.0]
+    nk, n = 3, len(specials)
+    vals = numpy.full((nk, 2, n), numpy.nan)
+    vals[0] = 7.5                                   # surface layer everywhere
+    vals[1, 0, :] = numpy.array(specials)           # row 0: two wet layers, the special value at the floor
+    vals[1, 1, :] = 3.25
+    vals[2, 1, :] = numpy.array(specials)           # row 1: three wet layers, the special value at the floor
+    want = numpy.stack([numpy.array(specials), numpy.array(specials)])
+    z = numpy.array([1.0, 3.0, 5.0])
+    if order:
+        z, vals = z[::-1].copy(), vals[::-1].copy()
+    ds = xarray.Dataset({'temp': (('k', 'y', 'x'), vals)}, coords={'zc': (('k',), z, {'positive': 'down'})})
+    if fill is not None:
+        where, value = fill
+        getattr(ds['temp'], where)['_FillValue'] = value
+        if where == 'encoding':
+            ds['temp'].encoding['missing_value'] = value
+    out = depth_ops.ocean_floor(ds, ['zc'])
+    got = out['temp'].values
+    ok = got.shape == want.shape and all((g == w and numpy.signbit(g) == numpy.signbit(w)) for g, w in zip(got.ravel().tolist(), want.ravel().tolist()))
+    ctx.check(ok, 'temp: deepest layer that holds data, at every location and time')
+
+
 def cases(tier):
+    for k, fill in enumerate((None, ('encoding', 0.0), ('encoding', -999.0), ('encoding', 1e35), ('encoding', -32768.0), ('encoding', 9.969209968386869e36), ('encoding', 1.0))):
+        yield Case(f'values:fill{k}', body_values, dict(fill=fill), max_paths=4)
     q = tier == 'quick'
     for ny, nx, nk in ((257, 2, 3), (300, 5, 9), (3, 3, 9), (2, 260, 17), (259, 3, 4), (2, 257, 3), (1027, 2, 10), (3, 66000, 2)):
         yield Case(f'wide:{ny}x{nx}:nk{nk}', body_wide, dict(ny=ny, nx=nx, nk=nk), max_paths=4)
